@@ -503,7 +503,7 @@ func convertStringToTv(schemaType *sdcpb.SchemaLeafType, v string, ts uint64) (*
 			}
 		}
 		return nil, fmt.Errorf("invalid value %s for union type: %v", v, schemaType)
-	case "enumeration":
+	case "enumeration", "bits", "binary", "instance-identifier":
 		// TODO: get correct type, assuming string
 		return &sdcpb.TypedValue{
 			Timestamp: ts,
